@@ -104,6 +104,33 @@ theorem restore_verdict_sound (r : Repo) (lk : Lookup) (fuel : Nat) (h : restore
 /-- (6) The lookup used by the driver is an admissible index. -/
 theorem driver_lookup_sound (r : Repo) : LkSound r (lkFirst r) := lkFirst_sound r
 
+/-- (7) **The read set of `check_trees` covers ALL content.**  Whenever the tree walk of check comes through (`out`), the set of
+packs `check --read-data` goes on to read (`readSet`) holds the pack of EVERY content blob (as check's index `lk` locates it) of
+EVERY file node of EVERY tree reachable from EVERY snapshot — whatever the node's recorded `size` (0 with real content for stdin /
+stdin-command snapshots, smaller or larger than the content for files that changed while read), `links`, `inode` and `device`
+(a hardlinked file overwritten in place keeps inode and link count across snapshots with new content): these fields are
+universally quantified here and `nodePacks` does not look at them (`nodePacks_ignores_metadata`).  Together with the root-tree
+packs and the packs of every subtree this is why a clean full check has read every blob a restore needs. -/
+theorem check_read_set_covers_all_content (rootFix : Bool) (r : Repo) (lk : Lookup) (fuel : Nat)
+    (out : List (Id × List Node)) (hw : walk (readTree r lk) fuel (roots r) (roots r) = some out) :
+    ∀ s ∈ r.snaps, ∀ t, Reach r lk s.tree t → ∀ nodes, readTree r lk t = some nodes →
+      ∀ n ∈ nodes, n.kind = .file → ∀ ids, n.content = some ids → ∀ d ∈ ids, ∀ e, lk .data d = some e →
+        e.pack ∈ readSet rootFix r lk out := by
+  intro s hs t ht nodes hrd n hn hk ids hc d hd e he
+  obtain ⟨nodes', hmem, hrd'⟩ := reach_processed hw (mem_roots hs) ht
+  rw [hrd] at hrd'
+  cases hrd'
+  unfold readSet
+  apply List.mem_append_right
+  exact mem_walkPacks hmem hn (content_pack_in_nodePacks hk hc hd he)
+
+/-- (7') … and the verdict of the whole check does not depend on that metadata: rewriting size / links / inode / device of any
+node changes neither its findings nor the packs it contributes. -/
+theorem check_ignores_node_metadata (lk : Lookup) (n : Node) (size links inode device : Nat) :
+    nodePacks lk { n with size := size, links := links, inode := inode, device := device } = nodePacks lk n ∧
+    nodeErrs lk { n with size := size, links := links, inode := inode, device := device } = nodeErrs lk n :=
+  nodePacks_ignores_metadata lk n size links inode device
+
 /-! ## Witnesses -/
 
 def z0 : Sizes := { entryLen := 37, entryLenComp := 41, overhead := 32, lengthLen := 4 }
@@ -211,6 +238,27 @@ theorem non_dir_subtree_checked :
     Reach.step (nodes := [oddNode]) (n := oddNode) Reach.root (by decide) (by simp) rfl
   have := blobOkB_complete (h 2 hr).1
   revert this
+  decide
+
+/-- seeds C05-4 / C05-5 as repository states: two snapshots whose file nodes are a stdin-style node (recorded size 0, real
+content) resp. two versions of one hardlinked file (links 2, SAME inode 77 and device, different content); the data pack 40
+holding the second content is damaged (a flipped bit: the blob decrypts no more). -/
+def metaNode (ids : List Id) (size links inode : Nat) : Node :=
+  { kind := .file, subtree := none, content := some ids, size := size, links := links, inode := inode }
+def damagedData (id content : Id) : PFile :=
+  { dataFile id content with hash := 99, dec := fun _ _ _ => .fail }
+def stdinDamaged : Repo :=
+  { good with files := [treeFile 10 10 1 [metaNode [3] 0 1 0], treeFile 20 20 2 [metaNode [4] 0 1 0], dataFile 30 3, damagedData 40 4] }
+def hardlinkDamaged : Repo :=
+  { good with files := [treeFile 10 10 1 [metaNode [3] 18 2 77, metaNode [3] 18 2 77],
+                        treeFile 20 20 2 [metaNode [4] 18 2 77, metaNode [4] 18 2 77], dataFile 30 3, damagedData 40 4] }
+
+/-- the model of the code reads pack 40 in both states and reports the damage; snapshot 2 does not restore -/
+theorem size0_and_hardlink_content_is_read :
+    check z0 true stdinDamaged (lkFirst stdinDamaged) 9 = .findings [.PackHashMismatch] ∧
+    check z0 true hardlinkDamaged (lkFirst hardlinkDamaged) 9 = .findings [.PackHashMismatch] ∧
+    restoreOk stdinDamaged (lkFirst stdinDamaged) 9 = false ∧
+    restoreOk hardlinkDamaged (lkFirst hardlinkDamaged) 9 = false := by
   decide
 
 end Rustic.Props.C05
